@@ -971,6 +971,17 @@ class Envelope:
         if self.state is None:
             return self.fock.resize(new_dimensions)
 
+        # Highest occupied level, computed up front: tracing out reorders the
+        # envelope, which must not happen between reshaping and slicing
+        num_quanta = -1
+        if new_dimensions <= self.fock.dimensions:
+            to = self.trace_out(self.fock)
+            assert isinstance(to, jnp.ndarray)
+            if to.shape == (self.fock.dimensions, 1):
+                num_quanta = num_quanta_vector(to)
+            else:
+                num_quanta = num_quanta_matrix(to)
+
         reshape_shape = [-1, -1]
         assert isinstance(self.fock.dimensions, int)
         assert isinstance(self.fock.index, int)
@@ -993,9 +1004,6 @@ class Envelope:
                 self.fock.dimensions = new_dimensions
                 return True
             if new_dimensions < self.fock.dimensions:
-                to = self.trace_out(self.fock)
-                assert isinstance(to, jnp.ndarray)
-                num_quanta = num_quanta_vector(to)
                 if num_quanta >= new_dimensions:
                     # Cannot hrink because amplitues exist beyond new_dimensions
                     return False
@@ -1023,9 +1031,6 @@ class Envelope:
                 self.state = ps.reshape((self.dimensions, self.dimensions))
                 return True
             if new_dimensions <= self.fock.dimensions:
-                to = self.trace_out(self.fock)
-                assert isinstance(to, jnp.ndarray)
-                num_quanta = num_quanta_matrix(to)
                 if num_quanta >= new_dimensions:
                     return False
                 slices = [slice(None)] * ps.ndim
